@@ -728,6 +728,8 @@ void h(void) {
 '''
     groups = []
     groups += bkldlt_pivoting_unbounded(report)
+    from props import kernels2
+    groups += kernels2.ge_unbounded(report) + kernels2.copy_data_unbounded(report)
     # ---- copy_data: which entry of the user's matrix lands where in the packed storage, for both triangles and both
     # storage orders.  conj() is an uninterpreted function, so the generic (complex Hermitian capable) statement is proved:
     # packed(i, j) = A(i, j) from the lower triangle, conj(A(j, i)) from the upper one, minus the shift on the diagonal.
